@@ -66,8 +66,8 @@ func (g *g3) body(depth, loops int) []ref.Tok {
 
 func (g *g3) element(depth, loops int) []ref.Tok {
 	deep := depth >= g.maxD
-	k := g.rng.IntN(40)
-	if deep && k >= 8 && k < 30 {
+	k := g.rng.IntN(50)
+	if deep && ((k >= 8 && k < 30) || k == 45 || k == 46) {
 		k = g.rng.IntN(8)
 	}
 	switch {
@@ -199,9 +199,90 @@ func (g *g3) element(depth, loops int) []ref.Tok {
 		out = append(out, ln("add"), ref.TProc{xn("pop")}, xn("def"), ln("dup"), ref.TProc{xn("pop"), g.lit()}, xn("def"))
 		out = append(out, xn(pn), ln(pn), xn("load"))
 		return out
-	default:
+	case k < 40:
 		ops := []string{"pop", "dup", "exch", "count", "add"}
 		return []ref.Tok{xn(ops[g.rng.IntN(len(ops))])}
+	case k < 42:
+		// forall over strings of arbitrary bytes: one round per byte, the byte
+		// value as an integer
+		g.feat["forall over a byte string"] = true
+		special := []byte{0, 9, 10, 13, 32, 40, 41, 92, 127, 128, 0xA9, 0xC3, 0xE2, 0xF0, 0xFE, 0xFF}
+		b := make([]byte, g.rng.IntN(6))
+		for i := range b {
+			if g.rng.IntN(2) == 0 {
+				b[i] = special[g.rng.IntN(len(special))]
+			} else {
+				b[i] = byte(g.rng.IntN(256))
+			}
+		}
+		return []ref.Tok{ref.TStr(b), g.proc(depth, loops+1), xn("forall")}
+	case k < 44:
+		// a name is used, re-bound by writing into a dictionary that is on the
+		// dictionary stack (put / copy, not def), and used again
+		g.feat["rebinding through put or copy"] = true
+		name := []string{"add", "dup", "exch", "sub"}[g.rng.IntN(4)]
+		if len(g.procs) > 0 && g.rng.IntN(2) == 0 {
+			name = g.procs[g.rng.IntN(len(g.procs))]
+		}
+		use := func() []ref.Tok { return []ref.Tok{g.lit(), g.lit(), xn(name)} }
+		var out []ref.Tok
+		if g.rng.IntN(4) > 0 {
+			out = append(out, use()...)
+		}
+		newBody := ref.TProc{g.lit()}
+		if g.rng.IntN(2) == 0 {
+			newBody = ref.TProc{xn("pop"), g.lit()}
+		}
+		switch g.rng.IntN(4) {
+		case 0:
+			out = append(out, xn("userdict"), ln(name), newBody, xn("put"))
+		case 1:
+			out = append(out, xn("currentdict"), ln(name), newBody, xn("put"))
+		case 2:
+			out = append(out, xn("<<"), ln(name), newBody, xn(">>"), xn("currentdict"), xn("copy"), xn("pop"))
+		default:
+			out = append(out, ln(name), newBody, xn("def"))
+		}
+		out = append(out, use()...)
+		if g.rng.IntN(3) == 0 {
+			// inside a procedure and a loop as well (second pass sees the new binding)
+			out = append(out, ref.TInt(2), ref.TProc(use()), xn("repeat"))
+		}
+		return out
+	case k < 45:
+		// a key bound to null is found by name lookup like any other key
+		g.feat["name bound to null"] = true
+		vn := g.newName("z")
+		null := []ref.Tok{ref.TInt(1), xn("array"), ref.TInt(0), xn("get")}
+		out := []ref.Tok{ln(vn), g.lit(), xn("def")}
+		switch g.rng.IntN(3) {
+		case 0:
+			out = append(append(append(out, ln(vn)), null...), xn("def"), xn(vn))
+		case 1:
+			out = append(append(append(out, xn("<<"), ln(vn)), null...), xn(">>"), xn("begin"), xn(vn), ln(vn), xn("load"), xn("end"), xn(vn))
+		default:
+			out = append(append(append(out, xn("<<"), ln(vn)), null...), xn(">>"), xn("begin"), ln(vn), xn("where"),
+				ref.TProc{xn("pop"), g.lit()}, ref.TProc{g.lit()}, xn("ifelse"), xn("end"))
+		}
+		return out
+	case k < 46:
+		g.feat["for with random bounds"] = true
+		steps := []int{-3, -2, -1, 1, 2, 3}
+		return []ref.Tok{ref.TInt(int64(g.rng.IntN(9) - 4)), ref.TInt(int64(steps[g.rng.IntN(len(steps))])), ref.TInt(int64(g.rng.IntN(11) - 5)),
+			g.proc(depth, loops+1), xn("for")}
+	case k < 47:
+		g.feat["repeat with a larger count"] = true
+		return []ref.Tok{ref.TInt(int64(4 + g.rng.IntN(6))), g.proc(depth, loops+1), xn("repeat")}
+	case k < 49:
+		// procedures made from arrays by cvx, or fetched from a container, and executed:
+		// the elements run in order, a nested procedure is pushed
+		g.feat["cvx array or fetched procedure executed"] = true
+		if g.rng.IntN(2) == 0 {
+			return []ref.Tok{xn("["), g.lit(), ref.TProc{g.lit()}, g.lit(), xn("]"), xn("cvx"), xn("exec")}
+		}
+		return []ref.Tok{xn("["), ref.TProc{g.lit(), ref.TProc{g.lit()}}, g.lit(), xn("]"), ref.TInt(0), xn("get"), xn("exec")}
+	default:
+		return []ref.Tok{g.lit()}
 	}
 }
 
